@@ -206,9 +206,27 @@ def mapSens : Op
       | .ok (o, l) => some [ofStrs pub, .str "ok", ofStrs o, ofStrs (l.map sensName)]
   | _ => none
 
+/-- `C09.dosehistory hasRegimen ops` with ops `[s enabled]`, `[r k]` (regimens are numbered; the one
+    the model starts with is 0) → has_sensitivities, regimen of the model | n, protocol of the solver | n -/
+def doseHistory : Op
+  | [.bool has, opsv] => do
+    let ol ← opsv.list?
+    let ops ← ol.mapM (fun o => match o with
+      | .list [.str "s", .bool b] => some (DoseOp.sens b : DoseOp Nat)
+      | .list [.str "r", .int k] => some (DoseOp.setRegimen k.toNat)
+      | _ => none)
+    let r0 : Option Nat := if has then some 0 else none
+    let s := doseRun { sensOn := false, regimen := r0, solver := r0 } ops
+    let ov : Option Nat → Val := fun o => match o with
+      | some k => .int k
+      | none => .none
+    some [.bool s.sensOn, ov s.regimen, ov s.solver]
+  | _ => none
+
 def ops : List (String × Op) :=
   [("C09.tables", tables), ("C09.simulate", simulate), ("C09.sens", sens),
    ("C09.reduced", reduced), ("C09.mapsens", mapSens), ("C09.grid", grid), ("C09.reducedsens", reducedSens), ("C09.senshistory", sensHistory),
-   ("C09.redhistory", redHistory), ("C09.setoutputs", setOutputsOp)]
+   ("C09.redhistory", redHistory), ("C09.setoutputs", setOutputsOp),
+   ("C09.dosehistory", doseHistory)]
 
 end ChiDriver.C09
